@@ -280,6 +280,9 @@ structure DstCfg where
   minRec : Nat
   maxRec : Nat
   maxTime : Nat
+  /-- `true` = the current code (3012c3c): `crashed_nodes()` / `recovering_nodes()` are sorted by
+      node id; `false` = the pinned code: map iteration order -/
+  sortedNodes : Bool := true
   deriving Repr
 
 structure Dst (σ : Type) where
@@ -291,6 +294,19 @@ structure Dst (σ : Type) where
   ops : Nat := 0
 
 def bits_0_1 : Nat := 0x3FB999999999999A
+
+/-- `nodes.sort_by_key(|id| id.0)` -/
+def insNat (x : Nat) : List Nat → List Nat
+  | [] => [x]
+  | y :: ys => if x ≤ y then x :: y :: ys else y :: insNat x ys
+
+def sortNat (l : List Nat) : List Nat := l.foldr insNat []
+
+/-- `CrashSimulator::crashed_nodes()`: the crashed ones among the node ids in map order `order`,
+    sorted by id in the current code -/
+def crashedNodes (sorted : Bool) (order : List Nat) (nodes : List NState) : List Nat :=
+  let l := order.filter fun i => (nodes.getD i .running).isCrashed
+  if sorted then sortNat l else l
 
 section
 variable {σ : Type} (S : Sampler σ)
@@ -333,7 +349,7 @@ def crashLoop (c : DstCfg) (d : Dst σ) : Except String (Dst σ) :=
 /-- `for node in crashed_nodes() { if gen_bool(0.1) { start_recovery(node) } }` — `order` is the
     iteration order of the map; the list of crashed nodes is taken once, before the loop -/
 def recoverLoop (c : DstCfg) (order : List Nat) (d : Dst σ) : Except String (Dst σ) :=
-  (order.filter fun i => (d.nodes.getD i .running).isCrashed).foldlM (fun d i => do
+  (crashedNodes c.sortedNodes order d.nodes).foldlM (fun d i => do
     let (b, g) ← S.bool bits_0_1 d.g
     if b then
       let (dur, g) ← S.range c.minRec c.maxRec g
@@ -349,6 +365,43 @@ def dstStep (c : DstCfg) (pi : List Nat) (d : Dst σ) : Except String (Dst σ) :
   let d ← crashLoop S c d
   let d ← recoverLoop S c pi d
   pure { d with ops := d.ops + 1 }
+
+end
+
+/-! ## the thread-local BUGGIFY context and the store-based harnesses (WAL / streaming / compaction)
+
+`SimulatedWalStore` / `SimulatedObjectStore` decide every fault through
+`should_buggify_with_prob`, which returns false WITHOUT drawing while the thread's context is
+disabled.  In the pinned code the harnesses use whatever context an earlier run left behind; in
+the current code (474577c) they install `FaultConfig::new()` (enabled) themselves. -/
+
+structure BugCtx where
+  enabled : Bool := true
+  deriving DecidableEq, Repr
+
+section
+variable {σ : Type} (S : Sampler σ)
+
+/-- `buggify!(rng, id, prob)` under a thread context -/
+def storeDecision (ctx : BugCtx) (prob : Nat) (g : σ) : Except String (Bool × σ) :=
+  if !ctx.enabled then pure (false, g)
+  else do
+    let (v, g) ← S.range 0 1000000 g
+    pure (SimKernel.buggifyTriggered v (SimKernel.clamp01 (F64.ofBits prob)), g)
+
+/-- the context a store-based harness runs under, given what an earlier run left on the thread -/
+def harnessCtx (installsOwn : Bool) (prev : BugCtx) : BugCtx := if installsOwn then {} else prev
+
+/-- a store-based harness run, abstractly: any computation `body` of the context it sees and the
+    generator (its fault decisions are `storeDecision ctx …`) -/
+def storeHarnessRun {α : Type} (installsOwn : Bool) (prev : BugCtx) (body : BugCtx → σ → α) (g : σ) : α :=
+  body (harnessCtx installsOwn prev) g
+
+/-- a concrete body: the outcomes of a fixed sequence of fault sites -/
+def faultSites (probs : List Nat) (ctx : BugCtx) (g : σ) : Except String (List Bool × σ) :=
+  probs.foldlM (fun (acc : List Bool × σ) p => do
+    let (b, g) ← storeDecision S ctx p acc.2
+    pure (acc.1 ++ [b], g)) ([], g)
 
 end
 
@@ -373,13 +426,218 @@ def runDst (seed ops : Nat) (c : DstCfg) (pi : List Nat) : String :=
     let resLine := s!"result time={d.now} ops={d.ops} crashes={d.crashes} recoveries={d.recoveries} lin=true conv=true errors=0 history=0"
     s!"{traceDigest (acc.reverse ++ [resLine])} | {resLine}"
 
+/-! ## `streaming::wal_dst::WalDSTHarness` over `SimulatedWalStore` and `WalRotator`
+
+Files are lists of ITEMS (header, complete entry, strict prefix of a header / an entry): every
+store append adds one item, `sync` makes all items of the file durable, a crash keeps the durable
+items, recovery yields the complete entries of every file that starts with a complete header, up
+to the first prefix item (a strict prefix of an entry never decodes: C10 `entries_of_prefix`).
+Byte LENGTHS matter (rotation threshold, `gen_range(1, len)` of a partial write): the encoded
+length of an entry is a parameter supplied by the real serializer (`encLen`), as `ser` is
+everywhere else. -/
+
+inductive WItem where
+  | header
+  | entry (ts : Nat)
+  | prefix
+  deriving DecidableEq, Repr
+
+structure WFile where
+  items : List WItem := []
+  bytes : Nat := 0
+  /-- number of leading items that are durable -/
+  synced : Nat := 0
+  deriving Repr
+
+structure WStats where
+  writeAttempts : Nat := 0
+  writeFailures : Nat := 0
+  partialWrites : Nat := 0
+  syncAttempts : Nat := 0
+  syncFailures : Nat := 0
+  diskFull : Nat := 0
+  deriving Repr
+
+structure WalCfg where
+  numWrites : Nat
+  maxFileSize : Nat
+  writeFail : Nat
+  partialWrite : Nat
+  fsyncFail : Nat
+  diskFull : Nat
+  simulateCrash : Bool
+  fsyncAfterWrite : Bool
+  /-- encoded entry length for a 1-, 2-, 3-digit timestamp (value `val-<ts>`, key `key-NNNNNN`) -/
+  len1 : Nat
+  len2 : Nat
+  len3 : Nat
+  deriving Repr
+
+def WalCfg.encLen (c : WalCfg) (ts : Nat) : Nat := if ts < 10 then c.len1 else if ts < 100 then c.len2 else c.len3
+
+structure Wal where
+  /-- the store's generator (`SimulatedRng::new(harness_rng.next_u64())`) -/
+  g : Rng
+  /-- files in sequence order; the current writer, if any, writes to the last one -/
+  files : List WFile := []
+  hasWriter : Bool := false
+  dropped : Bool := false
+  st : WStats := {}
+
+abbrev WM := StateT Wal (Except String)
+
+/-- `buggify!(rng, id, prob)` on the store's generator (context installed by the harness: enabled) -/
+def wFault (prob : Nat) : WM Bool := fun w =>
+  match storeDecision chacha {} prob w.g with
+  | .ok (b, g) => .ok (b, { w with g := g })
+  | .error e => .error e
+
+def wRange (lo hi : Nat) : WM Nat := fun w =>
+  match range lo hi w.g with
+  | .ok (v, g) => .ok (v, { w with g := g })
+  | .error e => .error e
+
+def modifyLast (f : WFile → WFile) : List WFile → List WFile
+  | [] => []
+  | [x] => [f x]
+  | x :: xs => x :: modifyLast f xs
+
+def wPush (it : WItem) (n : Nat) : WM Unit :=
+  modify fun w => { w with files := modifyLast (fun f => { f with items := f.items ++ [it], bytes := f.bytes + n }) w.files }
+
+/-- `SimulatedWalWriter::append` of `n` bytes that form item `it`; `true` = Ok -/
+def wStoreAppend (c : WalCfg) (it : WItem) (n : Nat) : WM Bool := do
+  modify fun w => { w with st := { w.st with writeAttempts := w.st.writeAttempts + 1 } }
+  if (← wFault c.diskFull) then
+    modify fun w => { w with st := { w.st with diskFull := w.st.diskFull + 1 } }
+    return false
+  if (← wFault c.writeFail) then
+    modify fun w => { w with st := { w.st with writeFailures := w.st.writeFailures + 1 } }
+    return false
+  if n > 1 then
+    if (← wFault c.partialWrite) then
+      modify fun w => { w with st := { w.st with partialWrites := w.st.partialWrites + 1 } }
+      let p ← wRange 1 n
+      wPush .prefix p
+      return false
+  wPush it n
+  return true
+
+/-- `SimulatedWalWriter::sync` on the current file; `true` = Ok -/
+def wStoreSync (c : WalCfg) : WM Bool := do
+  modify fun w => { w with st := { w.st with syncAttempts := w.st.syncAttempts + 1 } }
+  if (← wFault c.fsyncFail) then
+    modify fun w => { w with st := { w.st with syncFailures := w.st.syncFailures + 1 } }
+    return false
+  modify fun w => { w with files := modifyLast (fun f => { f with synced := f.items.length }) w.files }
+  return true
+
+/-- `WalRotator::rotate`; `true` = Ok -/
+def wRotate (c : WalCfg) : WM Bool := do
+  if (← get).hasWriter then
+    modify fun w => { w with hasWriter := false }
+    if !(← wStoreSync c) then
+      modify fun w => { w with dropped := true }
+  modify fun w => { w with files := w.files ++ [{}] }
+  if (← wStoreAppend c .header 16) then
+    modify fun w => { w with hasWriter := true }
+    return true
+  return false
+
+/-- `WalRotator::append`; `true` = Ok -/
+def wAppend (c : WalCfg) (ts : Nat) : WM Bool := do
+  let w ← get
+  let needsNew := !w.hasWriter || (match w.files.getLast? with | some f => f.bytes ≥ c.maxFileSize | none => true)
+  if needsNew then
+    if !(← wRotate c) then return false
+  if (← wStoreAppend c (.entry ts) (c.encLen ts)) then return true
+  modify fun w => { w with hasWriter := false, dropped := true }
+  return false
+
+/-- `WalRotator::sync`; `true` = Ok -/
+def wSync (c : WalCfg) : WM Bool := do
+  if (← get).dropped then
+    modify fun w => { w with dropped := false }
+    return false
+  if (← get).hasWriter then
+    return (← wStoreSync c)
+  return true
+
+/-- `InMemoryWalStore::simulate_crash` -/
+def wCrash : WM Unit :=
+  modify fun w => { w with files := w.files.map fun f => { f with items := f.items.take f.synced } }
+
+/-- the entries `recover_all_entries` yields from one file -/
+def recoverFile (f : WFile) : List Nat :=
+  match f.items with
+  | .header :: rest => (rest.takeWhile fun it => match it with | .entry _ => true | _ => false).filterMap
+      fun it => match it with | .entry ts => some ts | _ => none
+  | _ => []
+
+structure WalOut where
+  acked : List Nat := []
+  failed : Nat := 0
+
+/-- the write loop: `i` from 0, harness generator `h` threaded explicitly -/
+def walLoop (c : WalCfg) (crashAt : Nat) : Nat → Nat → Rng → WalOut → WM (WalOut × Bool)
+  | 0, _, _, o => pure (o, false)
+  | fuel + 1, i, h, o => do
+    if i ≥ c.numWrites then return (o, false)
+    if i == crashAt then
+      wCrash
+      return (o, true)
+    let ts := i + 1
+    -- the key draw of the HARNESS generator (the key does not influence lengths or outcomes)
+    let h ← match range 0 1000 h with
+      | .ok (_, h) => pure h
+      | .error e => throw e
+    let o ← (do
+      if (← wAppend c ts) then
+        if c.fsyncAfterWrite then
+          if (← wSync c) then pure { o with acked := o.acked ++ [ts] }
+          else pure { o with failed := o.failed + 1 }
+        else pure { o with acked := o.acked ++ [ts] }
+      else pure { o with failed := o.failed + 1 } : WM WalOut)
+    walLoop c crashAt fuel (i + 1) h o
+
+def showNatList (l : List Nat) : String := "[" ++ ", ".intercalate (l.map toString) ++ "]"
+
+/-- `WalDSTHarness::new(seed, cfg).run()` rendered as `{:?}` of the `WalDSTResult` -/
+def runWal (seed : Nat) (c : WalCfg) : String :=
+  let h0 := Rng.new seed.toUInt64
+  let (s, h1) := h0.nextU64
+  match (do
+    let (crashAt, h2) ← (if c.simulateCrash then
+        match range 1 (c.numWrites + 1) h1 with
+        | .ok (v, h) => pure (v, h)
+        | .error e => throw e
+      else pure (2 ^ 64, h1) : Except String (Nat × Rng))
+    let (((o : WalOut), (crashed : Bool)), (w : Wal)) ← (walLoop c crashAt (c.numWrites + 1) 0 h2 {}).run { g := Rng.new s }
+    let w : Wal := if c.simulateCrash && !crashed then
+      { w with files := w.files.map fun (f : WFile) => { f with items := f.items.take f.synced } } else w
+    pure (o, w)) with
+  | .error e => e
+  | .ok (o, w) =>
+    let recovered := w.files.flatMap recoverFile
+    let missingTs := if c.fsyncAfterWrite then o.acked.filter (fun ts => !recovered.contains ts) else []
+    let missing := missingTs.length
+    let msg := if missing == 0 then "None" else
+      s!"Some(\"INVARIANT VIOLATION: {missing} acknowledged writes missing after recovery. Acked: {o.acked.length}, Recovered: {recovered.length}. Missing timestamps (first 10): {showNatList (missingTs.take 10)}\")"
+    let line := s!"WalDSTResult \{ seed: {seed}, total_writes: {c.numWrites}, acknowledged_writes: {o.acked.length}, failed_writes: {o.failed}, recovered_entries: {recovered.length}, missing_after_recovery: {missing}, store_stats: SimulatedWalStoreStats \{ write_attempts: {w.st.writeAttempts}, write_failures: {w.st.writeFailures}, partial_writes: {w.st.partialWrites}, sync_attempts: {w.st.syncAttempts}, sync_failures: {w.st.syncFailures}, read_attempts: 0, read_corruptions: 0, disk_full_errors: {w.st.diskFull} }, passed: {if missing == 0 then "true" else "false"}, error_message: {msg} }"
+    s!"{traceDigest [line]} | {line}"
+
 /-- dispatcher of the `RUN <harness> <label> <seed> <ops> <cfg…>` op -/
 def run (harness : String) (seed ops : Nat) (cfg : List Nat) : Option String :=
-  if harness == "dst" then
+  if harness == "wal" then
     match cfg with
-    | n :: prob :: en :: skew :: sr :: dr :: minR :: maxR :: maxT :: pi =>
+    | [nw, mfs, wf, pw, ff, df, crash, fs, l1, l2, l3] =>
+      some (runWal seed ⟨nw, mfs, wf, pw, ff, df, crash == 1, fs == 1, l1, l2, l3⟩)
+    | _ => none
+  else if harness == "dst" then
+    match cfg with
+    | n :: prob :: en :: skew :: sr :: dr :: minR :: maxR :: maxT :: sorted :: pi =>
       if pi.length == n then
-        some (runDst seed ops ⟨n, prob, en == 1, skew == 1, sr, dr, minR, maxR, maxT⟩ pi)
+        some (runDst seed ops ⟨n, prob, en == 1, skew == 1, sr, dr, minR, maxR, maxT, sorted == 1⟩ pi)
       else none
     | _ => none
   else
